@@ -1,6 +1,7 @@
 (* Proofs about Model/Accept.v (property C17).  Statements are in Props/C17.v. *)
 From SV Require Import Base.Prelude Base.Bytes Model.Vint Model.Cql Model.Accept Proofs.Cql_proofs.
 From SV Require Model.Request Proofs.Request_proofs.
+From Coq Require Import Permutation.
 Open Scope N_scope.
 
 (* ====================================================================================== *)
@@ -2658,4 +2659,379 @@ Proof.
   intros _. destruct (Request_proofs.bind_row_ok _ _ named_vser cols _ cells E) as ((_ & Hb) & Hc & _). split.
   - intros nm t Hin. apply In_nth_error in Hin as [i Hi]. destruct (Hb i nm t Hi) as (kv & c & Hs & _). cbn in Hs. eauto.
   - exact Hc.
+Qed.
+
+(* ====================================================================================== *)
+(* Deepening round 3 (proof only)                                                          *)
+(* ====================================================================================== *)
+
+(* ---- section 12: rows bound by name do not depend on the order in which the map iterates ---- *)
+Lemma req_eqb_eq a b : Request.bytes_eqb a b = true <-> a = b.
+Proof. unfold Request.bytes_eqb. destruct (list_eq_dec N.eq_dec a b); split; congruence. Qed.
+
+Section NamedOrder.
+  Variable V : Type.
+  Notation assoc := (Request.assoc V).
+
+  Lemma assoc_notin k (kvs : list (bytes * V)) : ~ In k (map fst kvs) -> assoc k kvs = None.
+  Proof.
+    induction kvs as [|[k' v] r IH]; intros H; [reflexivity|]. cbn in *.
+    destruct (Request.bytes_eqb k k') eqn:E.
+    - apply req_eqb_eq in E. subst. tauto.
+    - apply IH. tauto.
+  Qed.
+  (* with distinct keys, [assoc] is membership: THE value stored under the key *)
+  Lemma assoc_in_nodup k v (kvs : list (bytes * V)) : NoDup (map fst kvs) -> In (k, v) kvs -> assoc k kvs = Some v.
+  Proof.
+    induction kvs as [|[k' v'] r IH]; intros Hn Hi; [destruct Hi|]. cbn in *. inversion Hn; subst.
+    destruct Hi as [Hi|Hi].
+    - inversion Hi; subst. replace (Request.bytes_eqb k k) with true; [reflexivity|].
+      symmetry. now apply req_eqb_eq.
+    - destruct (Request.bytes_eqb k k') eqn:E.
+      + apply req_eqb_eq in E. subst. exfalso. apply H1. change k' with (fst (k', v)). now apply in_map.
+      + now apply IH.
+  Qed.
+  Lemma assoc_in k v (kvs : list (bytes * V)) : assoc k kvs = Some v -> In (k, v) kvs.
+  Proof.
+    induction kvs as [|[k' v'] r IH]; [discriminate|]. cbn. destruct (Request.bytes_eqb k k') eqn:E.
+    - apply req_eqb_eq in E. subst. intros H. inversion H. now left.
+    - intros H. right. now apply IH.
+  Qed.
+  Lemma assoc_perm k (kvs kvs' : list (bytes * V)) : NoDup (map fst kvs) -> Permutation kvs kvs' ->
+    assoc k kvs = assoc k kvs'.
+  Proof.
+    intros Hn Hp. assert (Hn' : NoDup (map fst kvs')).
+    { eapply Permutation_NoDup; [|exact Hn]. now apply Permutation_map. }
+    destruct (assoc k kvs) as [v|] eqn:E.
+    - symmetry. apply assoc_in_nodup; [exact Hn'|]. eapply Permutation_in; [exact Hp|]. now apply assoc_in.
+    - destruct (assoc k kvs') as [v|] eqn:E'; [|reflexivity].
+      apply assoc_in in E'. apply Permutation_sym in Hp. apply (Permutation_in _ Hp) in E'.
+      rewrite (assoc_in_nodup k v kvs Hn E') in E. discriminate.
+  Qed.
+End NamedOrder.
+
+(* str's Ord as modelled by C09's [bytes_ltb] is a strict total order: what makes "the
+   lexicographically first unused key" a function of the SET of keys *)
+Lemma ltb_irrefl a : Request.bytes_ltb a a = false.
+Proof. induction a as [|x a IH]; [reflexivity|]. cbn. rewrite IH, N.ltb_irrefl, N.eqb_refl. reflexivity. Qed.
+Lemma ltb_total a : forall b, Request.bytes_ltb a b = false -> Request.bytes_ltb b a = false -> a = b.
+Proof.
+  induction a as [|x a IH]; intros [|y b] H1 H2; cbn in *; try reflexivity; try discriminate.
+  apply orb_false_iff in H1 as [L1 R1]. apply orb_false_iff in H2 as [L2 R2].
+  apply N.ltb_ge in L1, L2. assert (x = y) by lia. subst y. rewrite N.eqb_refl in R1, R2. cbn in R1, R2.
+  f_equal. now apply IH.
+Qed.
+Lemma ltb_negtrans a : forall b c, Request.bytes_ltb a b = false -> Request.bytes_ltb b c = false -> Request.bytes_ltb a c = false.
+Proof.
+  induction a as [|x a IH]; intros [|y b] [|z c] H1 H2; cbn in *; try reflexivity; try discriminate.
+  apply orb_false_iff in H1 as [L1 R1]. apply orb_false_iff in H2 as [L2 R2].
+  apply N.ltb_ge in L1, L2. apply orb_false_iff. split; [apply N.ltb_ge; lia|].
+  destruct (x =? z) eqn:E; [|reflexivity]. apply N.eqb_eq in E. subst z. assert (x = y) by lia. subst y.
+  rewrite N.eqb_refl in R1, R2. cbn in *. now apply (IH b c).
+Qed.
+Lemma min_bytes_spec l m : Request.min_bytes l = Some m -> In m l /\ forall x, In x l -> Request.bytes_ltb x m = false.
+Proof.
+  revert m. induction l as [|x r IH]; intros m; [discriminate|]. cbn.
+  destruct (Request.min_bytes r) as [m'|] eqn:E.
+  - destruct (IH m' eq_refl) as [Hi Hm]. destruct (Request.bytes_ltb m' x) eqn:L; intros H; inversion H; subst.
+    + split; [now right|]. intros y [Hy|Hy]; [subst y|now apply Hm].
+      destruct (Request.bytes_ltb x m) eqn:L2; [|reflexivity].
+      (* x < m and m < x: impossible *)
+      assert (Request.bytes_ltb m m = true); [|rewrite ltb_irrefl in *; discriminate].
+      destruct (Request.bytes_ltb m m) eqn:Q; [reflexivity|].
+      (* use negative transitivity: m<x=true, so not (m !< m and m !< x) *)
+      exfalso. clear -L L2. revert x L L2. induction m as [|a m IHm]; intros [|b x] L L2; cbn in *; try discriminate.
+      apply orb_true_iff in L, L2. destruct L as [L|L], L2 as [L2|L2].
+      * apply N.ltb_lt in L, L2. lia.
+      * apply N.ltb_lt in L. apply andb_true_iff in L2 as [L2 _]. apply N.eqb_eq in L2. lia.
+      * apply N.ltb_lt in L2. apply andb_true_iff in L as [L _]. apply N.eqb_eq in L. lia.
+      * apply andb_true_iff in L as [_ L]. apply andb_true_iff in L2 as [_ L2]. eapply IHm; eauto.
+    + split; [now left|]. intros y [Hy|Hy]; [subst y; apply ltb_irrefl|].
+      eapply ltb_negtrans; [apply Hm, Hy|exact L].
+  - intros H. inversion H; subst. apply Request_proofs.min_bytes_none in E. subst r.
+    split; [now left|]. intros y [Hy|[]]. subst y. apply ltb_irrefl.
+Qed.
+Lemma min_bytes_perm l l' : Permutation l l' -> Request.min_bytes l = Request.min_bytes l'.
+Proof.
+  intros Hp. destruct (Request.min_bytes l) as [m|] eqn:E, (Request.min_bytes l') as [m'|] eqn:E'; try reflexivity.
+  - destruct (min_bytes_spec _ _ E) as [I1 M1]. destruct (min_bytes_spec _ _ E') as [I2 M2].
+    f_equal. apply ltb_total.
+    + apply M2. eapply Permutation_in; eauto.
+    + apply M1. eapply Permutation_in; [apply Permutation_sym|]; eauto.
+  - apply Request_proofs.min_bytes_none in E'. subst l'. apply Permutation_sym, Permutation_nil in Hp. subst. discriminate.
+  - apply Request_proofs.min_bytes_none in E. subst l. apply Permutation_nil in Hp. subst. discriminate.
+Qed.
+
+Lemma ser_by_name_perm V T vser (kvs kvs' : list (bytes * V)) (cols : list (bytes * T)) :
+  NoDup (map fst kvs) -> Permutation kvs kvs' ->
+  Request.ser_by_name V T vser kvs cols = Request.ser_by_name V T vser kvs' cols.
+Proof.
+  intros Hn Hp. induction cols as [|[nm t] cs IH]; [reflexivity|]. cbn.
+  rewrite (assoc_perm V nm kvs kvs' Hn Hp), IH. reflexivity.
+Qed.
+
+Theorem typed_row_order (cols : list (bytes * ctype)) kvs kvs' : NoDup (map fst kvs) -> Permutation kvs kvs' ->
+  from_typed_row cols (Request.RMap kvs) = from_typed_row cols (Request.RMap kvs').
+Proof.
+  intros Hn Hp. unfold from_typed_row, Request.bind_row. cbn [Request.row_serialize].
+  rewrite (ser_by_name_perm _ _ named_vser kvs kvs' cols Hn Hp).
+  rewrite (min_bytes_perm (filter (fun k => negb (Request.col_named ctype cols k)) (map fst kvs))
+                          (filter (fun k => negb (Request.col_named ctype cols k)) (map fst kvs'))); [reflexivity|].
+  (* filter and map preserve permutations *)
+  assert (Hm : Permutation (map fst kvs) (map fst kvs')) by now apply Permutation_map.
+  clear -Hm. induction Hm; cbn.
+  - constructor.
+  - destruct (negb _); [now constructor|assumption].
+  - destruct (negb _), (negb _); try apply perm_swap; apply Permutation_refl.
+  - eapply Permutation_trans; eauto.
+Qed.
+
+(* with distinct keys the cell of a column is the wire form of THE entry stored under the column's
+   name - membership, no search order: a type-correct mis-binding is impossible *)
+Theorem typed_row_unique (cols : list (bytes * ctype)) kvs s : NoDup (map fst kvs) ->
+  from_typed_row cols (Request.RMap kvs) = Ok s ->
+  exists chunks : list bytes, sv_bytes s = concat chunks /\ List.length chunks = List.length cols /\
+    forall i nm t, nth_error cols i = Some (nm, t) ->
+      exists kv o, In (nm, kv) kvs /\ (forall kv', In (nm, kv') kvs -> kv' = kv) /\
+                   ser_out (fst kv) true t (snd kv) = (o, None) /\ nth_error chunks i = Some o.
+Proof.
+  intros Hn H. destruct (typed_row_ok cols _ s H) as (_ & _ & _ & chunks & Hb & Hl & Hc).
+  exists chunks. split; [exact Hb|]. split; [exact Hl|]. intros i nm t Hi.
+  destruct (Hc i nm t Hi) as (kv & o & Hs & Ho & Hn'). cbn in Hs. exists kv, o.
+  split; [now apply assoc_in|]. split; [|tauto].
+  intros kv' Hin. apply (assoc_in_nodup _ nm kv' kvs Hn) in Hin. congruence.
+Qed.
+
+(* ---- section 13: [dyn_fits] against an independent typing relation ---- *)
+Inductive has_cql_type : ctype -> cval -> Prop :=
+| HT_empty t : supports_empty t = true -> has_cql_type t CEmpty
+| HT_native n m v : payload_kind v = Some m ->
+    (n = m \/ (In n string_types /\ In m string_types)) -> has_cql_type (TNative n) v
+| HT_list e v l : vec_elems v = Some l -> (forall x, In x l -> has_cql_type e x) -> has_cql_type (TList e) v
+| HT_set e v l : vec_elems v = Some l -> (forall x, In x l -> has_cql_type e x) -> has_cql_type (TSet e) v
+| HT_vector e d v l : vec_elems v = Some l -> N.of_nat (List.length l) = d ->
+    (type_size e <> None -> ~ In CEmpty l) ->
+    (forall x, In x l -> has_cql_type e x) -> has_cql_type (TVector e d) v
+| HT_map k e l : (forall a b, In (a, b) l -> has_cql_type k a) -> (forall a b, In (a, b) l -> has_cql_type e b) ->
+    has_cql_type (TMap k e) (CMap l)
+| HT_tuple ts l : (List.length l <= List.length ts)%nat ->
+    (forall i x et, nth_error l i = Some (Some x) -> nth_error ts i = Some et -> has_cql_type et x) ->
+    has_cql_type (TTuple ts) (CTuple l)
+| HT_udt ks nm fts fields :
+    (forall f, In f (map fst fields) -> In f (map fst fts)) ->
+    (forall fname ft x, lookup_first fname fts = Some ft -> udt_field_value fname fields = Some x -> has_cql_type ft x) ->
+    has_cql_type (TUdt ks nm fts) (CUdt ks nm fields).
+
+Ltac inv_ht H := inversion H as [? Hs|? m ? Hp Hd|? ? l Hv Hall|? ? l Hv Hall|? ? ? l Hv Hlen Hne Hall|? ? l Hk He|? l Hlen Hall|? ? ? ? Hn Hall]; subst.
+
+Lemma ntype_eqb_eq n m : ntype_eqb n m = true <-> n = m.
+Proof. destruct n, m; split; intros H; try reflexivity; try discriminate H. Qed.
+Lemma in_string_types n : native_in (TNative n) string_types = true <-> In n string_types.
+Proof. destruct n; cbn; split; intros H; try discriminate H; try tauto; repeat (destruct H as [H|H]; try discriminate H); destruct H. Qed.
+
+Lemma fits_native s n v : dyn_fits_gen s (TNative n) v = true <-> has_cql_type (TNative n) v.
+Proof.
+  split.
+  - intros H. destruct (payload_kind v) as [m|] eqn:E.
+    + apply (HT_native n m v E).
+      assert (G : ntype_eqb n m || (native_in (TNative n) string_types && native_in (TNative m) string_types) = true).
+      { destruct v; cbn in E; try discriminate E; inversion E; subst m; exact H. }
+      apply orb_true_iff in G as [G|G]; [left; now apply ntype_eqb_eq|].
+      apply andb_true_iff in G as [G1 G2]. right. split; now apply in_string_types.
+    + destruct v; cbn in E; try discriminate E; cbn in H; try discriminate H. now constructor.
+  - intros H. inv_ht H.
+    + exact Hs.
+    + assert (G : ntype_eqb n m || (native_in (TNative n) string_types && native_in (TNative m) string_types) = true).
+      { apply orb_true_iff. destruct Hd as [->|[A B]]; [left; now apply ntype_eqb_eq|].
+        right. apply andb_true_iff. split; now apply in_string_types. }
+      destruct v; cbn in Hp; try discriminate Hp; inversion Hp; subst m; exact G.
+Qed.
+
+Lemma fits_seq_shape s t v : (exists e, t = TList e \/ t = TSet e) ->
+  dyn_fits_gen s t v = match vec_elems v, t with
+                       | Some l, (TList e | TSet e) => forallb (dyn_fits_gen s e) l
+                       | _, _ => false end.
+Proof. intros [e [->| ->]]; destruct v; reflexivity. Qed.
+Lemma fits_vec_shape s e d v :
+  dyn_fits_gen s (TVector e d) v = match v with CEmpty => true | _ =>
+    match vec_elems v with
+    | Some l => (N.of_nat (List.length l) =? d) && negb (s && is_some (type_size e) && existsb is_cempty l) &&
+                forallb (dyn_fits_gen s e) l
+    | None => false end end.
+Proof. destruct v; reflexivity. Qed.
+
+Lemma existsb_cempty l : existsb is_cempty l = true <-> In CEmpty l.
+Proof.
+  rewrite existsb_exists. split.
+  - intros [x [Hi Hx]]. destruct x; try discriminate Hx. exact Hi.
+  - intros H. exists CEmpty. now split.
+Qed.
+
+(* the UDT clause: [fits_udt_go] walks the type's fields and consumes the value's entries; said
+   without the walk: every entry names a field of the type, and the value the map holds for a
+   field (the last entry of that name) fits the type the FIRST field of that name has *)
+Lemma udt_value_remove_other n m st : n <> m -> udt_field_value n (remove_name m st) = udt_field_value n st.
+Proof. intros H. unfold udt_field_value. now rewrite lookup_last_remove_other. Qed.
+Lemma remove_name_names {A} m (st : list (name * A)) f : In f (map fst (remove_name m st)) <-> In f (map fst st) /\ f <> m.
+Proof.
+  unfold remove_name. rewrite !in_map_iff. split.
+  - intros [[k x] [E Hi]]. cbn in E. subst k. apply filter_In in Hi as [Hi Hn]. cbn in Hn.
+    apply negb_true_iff, bytes_eqb_neq in Hn. split; [exists (f, x); now split|congruence].
+  - intros [[[k x] [E Hi]] Hn]. cbn in E. subst k. exists (f, x). split; [reflexivity|]. apply filter_In. split; [exact Hi|].
+    cbn. apply negb_true_iff, bytes_eqb_neq. congruence.
+Qed.
+Lemma fits_udt_go_spec (f : ctype -> cval -> bool) fts : forall st,
+  fits_udt_go f fts st = true <->
+  (forall g, In g (map fst st) -> In g (map fst fts)) /\
+  (forall fname ft x, lookup_first fname fts = Some ft -> udt_field_value fname st = Some x -> f ft x = true).
+Proof.
+  induction fts as [|[fn ft] r IH]; intros st; cbn [fits_udt_go].
+  - split.
+    + intros H. destruct st; [|discriminate H]. split; [intros g []|intros ? ? ? H1; discriminate H1].
+    + intros [H _]. destruct st as [|[g y] st]; [reflexivity|]. destruct (H g). now left.
+  - rewrite andb_true_iff, IH. cbn [map fst lookup_first]. split.
+    + intros [A [B C]]. split.
+      * intros g Hg. destruct (list_eq_dec N.eq_dec g fn) as [->|Hn]; [now left|]. right. apply B. apply remove_name_names. now split.
+      * intros fname ft' x H1 H2. destruct (bytes_eqb fname fn) eqn:E.
+        -- apply bytes_eqb_eq in E. subst fname. inversion H1; subst ft'. now rewrite H2 in A.
+        -- apply bytes_eqb_neq in E. apply (C fname ft' x H1). now rewrite udt_value_remove_other.
+    + intros [B C]. split; [|split].
+      * destruct (udt_field_value fn st) as [x|] eqn:E; [|reflexivity]. apply (C fn ft x); [|exact E].
+        replace (bytes_eqb fn fn) with true; [reflexivity|]. symmetry. now apply bytes_eqb_eq.
+      * intros g Hg. apply remove_name_names in Hg as [Hg Hn]. destruct (B g Hg) as [Hx|Hx]; [congruence|exact Hx].
+      * intros fname ft' x H1 H2.
+        destruct (list_eq_dec N.eq_dec fname fn) as [->|Hn].
+        -- exfalso. unfold udt_field_value in H2. rewrite lookup_last_none in H2; [discriminate|].
+           intros Hin. apply remove_name_names in Hin. tauto.
+        -- rewrite udt_value_remove_other in H2 by exact Hn. apply (C fname ft' x); [|exact H2].
+           replace (bytes_eqb fname fn) with false; [exact H1|]. symmetry. now apply bytes_eqb_neq.
+Qed.
+Lemma fits_tuple_go_spec (f : ctype -> cval -> bool) ts : forall l,
+  fits_tuple_go f ts l = true <->
+  (forall i x et, nth_error l i = Some (Some x) -> nth_error ts i = Some et -> f et x = true).
+Proof.
+  induction ts as [|et ts IH]; intros l; cbn [fits_tuple_go].
+  - split; [|reflexivity]. intros _ i x et' _ H. destruct i; discriminate H.
+  - destruct l as [|ox l].
+    + split; [|reflexivity]. intros _ i x et' H. destruct i; discriminate H.
+    + rewrite andb_true_iff, IH. split.
+      * intros [A B] [|i] x et' H1 H2; cbn in *.
+        -- inversion H1; inversion H2; subst. exact A.
+        -- eapply B; eauto.
+      * intros H. split.
+        -- destruct ox as [x|]; [|reflexivity]. apply (H 0%nat x et); reflexivity.
+        -- intros i x et' H1 H2. apply (H (S i) x et'); assumption.
+Qed.
+Lemma lookup_first_in {A} n (l : list (name * A)) x : lookup_first n l = Some x -> In (n, x) l.
+Proof.
+  induction l as [|[m y] l IH]; [discriminate|]. cbn. destruct (bytes_eqb n m) eqn:E.
+  - apply bytes_eqb_eq in E. subst. intros H. inversion H. now left.
+  - intros H. right. now apply IH.
+Qed.
+
+Lemma vec_fwd e d l : (forall v, dyn_fits_gen true e v = true <-> has_cql_type e v) ->
+  (N.of_nat (List.length l) =? d) && negb (true && is_some (type_size e) && existsb is_cempty l) &&
+  forallb (dyn_fits_gen true e) l = true ->
+  N.of_nat (List.length l) = d /\ (type_size e <> None -> ~ In CEmpty l) /\ (forall x, In x l -> has_cql_type e x).
+Proof.
+  intros IHe H. apply andb_true_iff in H as [H H3]. apply andb_true_iff in H as [H1 H2].
+  apply N.eqb_eq in H1. rewrite forallb_forall in H3. split; [exact H1|]. split.
+  - intros Hs Hin. apply existsb_cempty in Hin. rewrite Hin in H2. destruct (type_size e); [discriminate H2|congruence].
+  - intros x Hx. apply IHe. now apply H3.
+Qed.
+
+Theorem dyn_fits_typing t : forall v, dyn_fits t v = true <-> has_cql_type t v.
+Proof.
+  unfold dyn_fits.
+  induction t as [n|e IHe|e IHe|k e IHk IHe|ts IHts|ks' nm' fts IHfs|e d IHe] using ctype_ind'; intros v.
+  - apply fits_native.
+  - rewrite fits_seq_shape by eauto. split.
+    + destruct (vec_elems v) as [l|] eqn:E; [|discriminate]. intros H. apply (HT_list e v l E).
+      intros x Hx. apply IHe. rewrite forallb_forall in H. now apply H.
+    + intros H. inv_ht H; [discriminate|]. rewrite Hv. apply forallb_forall. intros x Hx. apply IHe. now apply Hall.
+  - rewrite fits_seq_shape by eauto. split.
+    + destruct (vec_elems v) as [l|] eqn:E; [|discriminate]. intros H. apply (HT_set e v l E).
+      intros x Hx. apply IHe. rewrite forallb_forall in H. now apply H.
+    + intros H. inv_ht H; [discriminate|]. rewrite Hv. apply forallb_forall. intros x Hx. apply IHe. now apply Hall.
+  - split.
+    + destruct v; try discriminate. cbn [dyn_fits_gen]. intros H. rewrite forallb_forall in H.
+      constructor; intros a b Hin; specialize (H (a, b) Hin); cbn in H; apply andb_true_iff in H as [H1 H2];
+        [now apply IHk|now apply IHe].
+    + intros H. inv_ht H; [discriminate|]. cbn [dyn_fits_gen]. apply forallb_forall. intros [a b] Hin. cbn.
+      apply andb_true_iff. split; [apply IHk; eapply Hk; eauto|apply IHe; eapply He; eauto].
+  - split.
+    + destruct v; try discriminate; [intros _; now constructor|]. rewrite dyn_fits_tuple. intros H.
+      apply andb_true_iff in H as [H1 H2]. apply Nat.leb_le in H1. constructor; [exact H1|].
+      intros i x et Hl Ht. rewrite fits_tuple_go_spec in H2. specialize (H2 i x et Hl Ht).
+      rewrite Forall_forall in IHts. apply (IHts et); [eapply nth_error_In; eauto|exact H2].
+    + intros H. inv_ht H; [reflexivity|]. rewrite dyn_fits_tuple. apply andb_true_iff. split; [now apply Nat.leb_le|].
+      apply fits_tuple_go_spec. intros i x et Hl Ht. rewrite Forall_forall in IHts.
+      apply (IHts et); [eapply nth_error_In; eauto|]. eapply Hall; eauto.
+  - split.
+    + destruct v; try discriminate. rewrite dyn_fits_udt. intros H. apply andb_true_iff in H as [H H3].
+      apply andb_true_iff in H as [H1 H2]. apply bytes_eqb_eq in H1, H2. subst.
+      apply fits_udt_go_spec in H3 as [A B]. constructor; [exact A|].
+      intros fname ft x Hf Hv. rewrite Forall_forall in IHfs.
+      apply (IHfs (fname, ft)); [now apply lookup_first_in|]. eapply B; eauto.
+    + intros H. inv_ht H; [discriminate|]. rewrite dyn_fits_udt.
+      replace (bytes_eqb ks' ks') with true by (symmetry; now apply bytes_eqb_eq).
+      replace (bytes_eqb nm' nm') with true by (symmetry; now apply bytes_eqb_eq). cbn [andb].
+      apply fits_udt_go_spec. split; [assumption|]. intros fname ft x Hf Hv. rewrite Forall_forall in IHfs.
+      apply (IHfs (fname, ft)); [now apply lookup_first_in|]. eapply Hall; eauto.
+  - rewrite fits_vec_shape. split.
+    + destruct v; try discriminate; try (intros _; constructor; reflexivity);
+        cbn [vec_elems]; intros H; destruct (vec_fwd e d l IHe H) as (A & B & C);
+        (eapply HT_vector with (l := l); [reflexivity|exact A|exact B|exact C]).
+    + intros H. inv_ht H; [reflexivity|].
+      assert (G : (N.of_nat (List.length l) =? N.of_nat (List.length l)) &&
+                  negb (true && is_some (type_size e) && existsb is_cempty l) && forallb (dyn_fits_gen true e) l = true).
+      { rewrite N.eqb_refl. cbn [andb]. apply andb_true_iff. split.
+        - apply negb_true_iff. destruct (type_size e) eqn:Es; [|reflexivity]. cbn.
+          destruct (existsb is_cempty l) eqn:Ex; [|reflexivity]. apply existsb_cempty in Ex. exfalso. apply Hne; [congruence|exact Ex].
+        - apply forallb_forall. intros x Hx. apply IHe. now apply Hall. }
+      destruct v; cbn in Hv; try discriminate Hv; inversion Hv; subst; exact G.
+Qed.
+
+(* ---- section 14: the one-line count model against the row models ---- *)
+(* [closure_count] is complete: it refuses exactly the sums above u16::MAX, with TooManyValues,
+   and depends on the parts as a multiset only *)
+Lemma fold_add_perm l l' : Permutation l l' -> forall a, fold_left N.add l a = fold_left N.add l' a.
+Proof. induction 1; intros a; cbn; auto; [f_equal; lia|congruence]. Qed.
+Theorem closure_count_spec parts :
+  (forall e, closure_count parts = Err e <-> e = RE_TooManyValues /\ u16_max < fold_left N.add parts 0) /\
+  (forall n, closure_count parts = Ok n <-> n = fold_left N.add parts 0 /\ n <= u16_max) /\
+  (forall parts', Permutation parts parts' -> closure_count parts = closure_count parts').
+Proof.
+  unfold closure_count. split; [|split].
+  - intros e. destruct (u16_max <? fold_left N.add parts 0) eqn:E.
+    + apply N.ltb_lt in E. split; [intros H; inversion H; now split|intros [-> _]; reflexivity].
+    + apply N.ltb_ge in E. split; [discriminate|intros [_ H]; lia].
+  - intros n. destruct (u16_max <? fold_left N.add parts 0) eqn:E.
+    + apply N.ltb_lt in E. split; [discriminate|intros [-> H]; lia].
+    + apply N.ltb_ge in E. split; [intros H; inversion H; now split|intros [-> _]; reflexivity].
+  - intros parts' Hp. now rewrite (fold_add_perm _ _ Hp 0).
+Qed.
+
+(* the row models end in the same check: the count a row (by position or by name) leaves in a
+   SerializedValues is the [closure_count] of its one part, and a row refused for its count is
+   refused by [closure_count] *)
+Theorem closure_count_rows :
+  (forall cols vals s, from_row cols vals = Ok s ->
+     closure_count [N.of_nat (List.length vals)] = Ok (sv_count s)) /\
+  (forall cols vals, from_row cols vals = Err RE_TooManyValues ->
+     closure_count [N.of_nat (List.length vals)] = Err RE_TooManyValues) /\
+  (forall (cols : list (bytes * ctype)) r s, from_typed_row cols r = Ok s ->
+     closure_count [N.of_nat (List.length cols)] = Ok (sv_count s)).
+Proof.
+  split; [|split].
+  - intros cols vals s H. destruct (from_row_count cols vals s H) as (_ & _ & _ & Hc & Hm).
+    unfold closure_count. cbn [fold_left]. rewrite N.add_0_l, <- Hc.
+    destruct (u16_max <? sv_count s) eqn:E; [apply N.ltb_lt in E; lia|reflexivity].
+  - intros cols vals. unfold from_row. destruct (negb _) eqn:El; [discriminate|]. apply negb_false_iff, Nat.eqb_eq in El.
+    destruct (row_write cols vals [] 0) as [[b cnt] [e|]] eqn:E; [discriminate|].
+    destruct (row_write_spec _ _ _ _ _ _ El E) as (cs & _ & _ & _ & ->).
+    unfold closure_count. cbn [fold_left]. destruct (u16_max <? 0 + N.of_nat (List.length vals)); [reflexivity|discriminate].
+  - intros cols r s H. destruct (typed_row_ok cols r s H) as ((chunks & _ & _ & _ & Hm) & Hc & _).
+    unfold closure_count. cbn [fold_left]. rewrite N.add_0_l, <- Hc.
+    destruct (u16_max <? sv_count s) eqn:E; [apply N.ltb_lt in E; lia|reflexivity].
 Qed.
